@@ -308,18 +308,17 @@ class Setting:
         }
 
     def __copy__(self):
-        setting = Setting(
-            str(self.name),
-            copy.copy(self._default),
-            description=None if self.description is None else str(self.description),
-            label=None if self.label is None else str(self.label),
-            options=copy.copy(self.options),
-            schema=copy.copy(self.schema) if hasattr(self, "schema") else None,
-            enforcedOptions=bool(self.enforcedOptions),
-            subLabels=copy.copy(self.subLabels),
-            isEnvironment=bool(self.isEnvironment),
-            oldNames=None if self.oldNames is None else list(self.oldNames),
-        )
+        # keep the class of the setting: subclasses define how the value is validated and dumped
+        setting = type(self).__new__(type(self))
+        setting.__dict__.update(self.__dict__)
+        if "_customSchema" not in setting.__dict__:
+            # unpickled settings have dropped their schema objects
+            setting._customSchema = None
+            setting._setSchema()
+        setting.options = copy.copy(self.options)
+        setting.subLabels = copy.copy(self.subLabels)
+        setting.oldNames = None if self.oldNames is None else list(self.oldNames)
+        setting._default = copy.copy(self._default)
         setting._value = copy.deepcopy(self._value)
         return setting
 
